@@ -138,7 +138,7 @@ namespace BitSerializer::Detail
 		else if (mStartDataPtr != mBuffer)
 		{
 			// Squeeze buffer
-			std::memcpy(mBuffer, mStartDataPtr, mEndDataPtr - mStartDataPtr);
+			std::memmove(mBuffer, mStartDataPtr, mEndDataPtr - mStartDataPtr);
 			mEndDataPtr -= mStartDataPtr - mBuffer;
 			mStartDataPtr = mBuffer;
 		}
